@@ -172,15 +172,35 @@ func ghostTimerPrefix(kg uint16) []byte { return []byte{byte(kg >> 8), byte(kg),
 // It applies nothing itself: keyed events, watermarks, barriers and source-complete are all queued
 // for the event loop (o.events), which applies them one at a time - a barrier handled on the
 // caller's goroutine would take the DKV cut while the loop is still applying released events.
+// An event is acknowledged to its sender only with the answer of the event loop (HandleEvent
+// waits for respErr; it starts no goroutine of its own): when a sender's barrier is acknowledged
+// it IS registered, so the sender's next event meets the alignment gate.
 //@ func Operator.HandleEvent
 //@   property C02
 //@   nosafety
 //@   requires req != nil
 //@   ensures called(alignSender) || called(NewError)
+//@   ensures called("recv:respErr") || called(NewError) || called("fmt.Errorf")
+//@   atcall go: false
 //@   atcall handleCheckpointBarrier: false
 //@   atcall handleKeyedEvent: false
 //@   atcall handleWatermark: false
 //@   atcall handleSourceComplete: false
+
+// The event loop is ONE goroutine: queued events and timed-out batches are handled one after the
+// other on it, so the batch a barrier flushes before the checkpoint is the only one in flight
+// (a flush running beside the loop could be inside the handler while the cut is taken).
+//@ func Operator.processEvents
+//@   property C02
+//@   nosafety
+//@   atcall go: false
+
+// "Not needed" is only ever the database's own answer - also while a redeploy is loading: a
+// neighbour that is told "not needed" deletes the file.
+//@ func Operator.HandleNeedsTable
+//@   property C09
+//@   nosafety
+//@   ensures called(NeedsTable)
 
 // ---- table ownership (C09). The shared table may be deleted only if this
 // partition's range covers the table's whole range, or every neighbour answered
@@ -328,10 +348,13 @@ func ghostEntryKey(s *KeyedStateStore, key []byte) []byte { _, d := s.decodeKey(
 
 // processEventBatch: one state fetch per distinct key of the batch, all fetches before the
 // handler call, all mutations after it, each result applied under the key the handler named.
+// (C11: the watermark the handler is told is the registry's composite watermark.)
 //@ func Operator.processEventBatch
-//@   property C03
+//@   property C03 C11
 //@   nosafety
 //@   order ApplyMutations after ProcessEventBatch
+//@   order ProcessEventBatch after New
+//@   atcall New: arg0 == o.timerRegistry.watermark
 //@   atcall GetState: same(arg0, rxnEvent.key) && !has(keyStateMap, string(rxnEvent.key))
 //@   atcall ApplyMutations: same(arg0, keyResult.Key) && same(arg1, keyResult.StateMutationNamespaces)
 //@   atcall ProcessEventBatch: same(arg1.KeyStates, keyStates) && same(arg1.Events, events)
@@ -344,7 +367,7 @@ func ghostEntryKey(s *KeyedStateStore, key []byte) []byte { _, d := s.decodeKey(
 // the epoch (NewTimerRegistry enters every runner with time.Unix(0, 0)), and no timer later than
 // that minimum is handed out.
 //@ func NewTimerRegistry
-//@   property C11
+//@   property C11 C10
 //@   ensures result != nil && result.store == store
 //@   ensures forall(0, len(srIDs), func(i int) bool { return has(result.upstreams, srIDs[i]) && result.upstreams[srIDs[i]] == time.Unix(0, 0) })
 //@   ensures forall(func(k string) bool { return has(result.upstreams, k) ==> exists(0, len(srIDs), func(i int) bool { return srIDs[i] == k }) })
@@ -357,7 +380,7 @@ func ghostEntryKey(s *KeyedStateStore, key []byte) []byte { _, d := s.decodeKey(
 // (The cached watermark - the one the handler is told with every flushed batch - is already the new
 // minimum when the first due timer is handed out.)
 //@ func TimerRegistry.AdvanceWatermark
-//@   property C11
+//@   property C11 C10
 //@   atcall yield: r.watermark == compositeWatermark
 //@   requires wm != nil
 //@   modifies r.upstreams, r.watermark, KeyGroupPriorityQueue.*
@@ -369,20 +392,30 @@ func ghostEntryKey(s *KeyedStateStore, key []byte) []byte { _, d := s.decodeKey(
 // The timer store behind the registry is decided under C10 (KeyGroupPriorityQueue); here only its
 // frame matters: it never touches the registry's upstream table or cached watermark.
 //@ func TimerStore.GetEarliest
-//@   property C11
+//@   property C11 C10
 //@   trusted
 //@   modifies KeyGroupPriorityQueue.*
 //@ func TimerStore.Delete
-//@   property C11
+//@   property C11 C10
 //@   trusted
 //@   modifies KeyGroupPriorityQueue.*
 
 // The iterator hands out a timer only if it is not later than the composite watermark computed above.
 //@ func TimerRegistry.AdvanceWatermark$0
-//@   property C11
+//@   property C11 C10
 //@   nosafety
 //@   atcall yield: !arg1.After(compositeWatermark)
 //@   order yield after Delete
+
+// A timer is stored under the key group of ITS subject key - the group the key's events are routed
+// to and its state is stored under (C05) - followed by the timer schema byte, the time and the key.
+//@ define timerKeyOf(r, kg, k) := len(r) == 11+len(k) && r[0]*256 + r[1] == kg && r[2] == 1 &&
+//@        forall(0, len(k), func(ii_ int) bool { return r[11+ii_] == k[ii_] })
+//@ func TimerStore.encodeTimerKey
+//@   property C05 C10
+//@   requires s.keySpace != nil && partitioning.ghostValidKeySpace(s.keySpace)
+//@   modifies nothing
+//@   ensures uint16(result0) == uint16(s.keySpace.KeyGroup(subjectKey)) && timerKeyOf(result1, uint16(result0), subjectKey)
 
 // ---- per key-group timer queues (C06, C10). The timer store of an operator has one queue per key
 // group of ITS range, each built for that key group (Start+i, not i): after a rescale an operator
